@@ -56,6 +56,11 @@ def nd_cases(rng, tier):
                     ndim = rng.choice([1, 2, 2, 3])
                     lo = 3 if p.startswith('order2') else 2
                     shape = [rng.randint(lo, 4 if ndim > 1 else 6) for _ in range(ndim)]
+                    pd_ax = rng.randrange(ndim)
+                    if kind == 'pd' and ndim > 1 and rng.random() < 0.6:
+                        # only the differentiated axis has a minimal length; the others may be shorter
+                        # (down to one point) -- the size guard must look at the axis it differentiates
+                        shape = [n if i == pd_ax else rng.randint(1, 3) for i, n in enumerate(shape)]
                     dxs = [rng.choice([1.0, 0.5, 2.0, 0.25]) for _ in range(ndim)]
                     c = float(rng.choice([0, 0, 0, 1, -2])) if p == 'constant' else 0.0
                     # grid placement: nodes in the cell centres, or on the boundary per axis/side -- the
@@ -66,12 +71,15 @@ def nd_cases(rng, tier):
                     else:
                         flags = ([(True, True)] * ndim if bdry is True else
                                  [(rng.random() < 0.5, rng.random() < 0.5) for _ in range(ndim)])
+                        # a one-point axis with nodes on both sides would have extent 0
+                        # (and with a node on one side the code's own cell side is off: recorded C14 finding)
+                        flags = [(False, False) if n == 1 else fl for n, fl in zip(shape, flags)]
                         # extent chosen so that the cell side is exactly dxs[i]: side * (n - (bl + br) / 2)
                         ext = [d * (n - (int(fl[0]) + int(fl[1])) / 2.0) for n, d, fl in zip(shape, dxs, flags)]
                         space = odl.uniform_discr([0.0] * ndim, ext, shape, nodes_on_bdry=flags)
                         assert np.allclose(space.cell_sides, dxs)
                     if kind == 'pd':
-                        ax = rng.randrange(ndim)
+                        ax = pd_ax
                         op = odl.PartialDerivative(space, ax, method=m, pad_mode=p, pad_const=c)
                         opk = '(OpPD %d)' % ax
                     elif kind == 'grad':
@@ -89,11 +97,15 @@ def nd_cases(rng, tier):
                             return sp.element([_arr(rng, shape) for _ in range(len(sp))])
                         return sp.element(_arr(rng, shape))
                     x = rand_el(op.domain)
-                    out = op(x)
+                    # half of the evaluations are in place into an element holding arbitrary old values:
+                    # the result must not depend on them (solvers call op(x, out=...) on used buffers)
+                    inplace = rng.random() < 0.5
+                    out = op(x, out=rand_el(op.range)) if inplace else op(x)
                     lin = bool(op.is_linear)
                     if lin:
                         y = rand_el(op.range)
-                        adj = pack(op.adjoint(y), op.domain)
+                        adj = pack(op.adjoint(y, out=rand_el(op.domain)) if inplace else op.adjoint(y),
+                                   op.domain)
                         yy = pack(y, op.range)
                     else:
                         adj, yy = [], []
@@ -103,7 +115,8 @@ def nd_cases(rng, tier):
                                C.qss(pack(x, op.domain)), C.qss(pack(out, op.range)), C.b(lin),
                                C.qss(yy), C.qss(adj)))
                     cs.add(term, {'op': kind, 'shape': shape, 'method': m, 'pad_mode': p, 'pad_const': c,
-                                  'dx': dxs}, (kind, tuple(shape), m, p, c, tuple(dxs)))
+                                  'dx': dxs, 'in_place': inplace},
+                           (kind, tuple(shape), m, p, c, tuple(dxs)))
     return cs
 
 
